@@ -531,10 +531,11 @@ def helpers(rep, f, c, sink):
             stores = lc_stores(p)
             first_ok = bool(stores) and stores[0] == 'Converting' and (not p.events or p.events[0][0] == 'store')
             rep.ob('C10-D1.replay.state', fn, first_ok, 'the replay helper must set state := Converting before anything else', at, None, c)
-            offc = [(e[1], e[2]) for e in p.conds() if e[1][0] == 'bin' and e[1][1] == 'Eq' and e[1][2] == OFF and e[1][3][0] == 'c' and not any(s[0] == 'cptr' for s in walk(e[1]))]
+            offc = [(e[1], e[2]) for e in p.conds() if e[1][0] == 'bin' and e[1][1] in ('Eq', 'Ne') and e[1][2] == OFF and e[1][3][0] == 'c' and isinstance(e[2], bool)
+                    and not any(s[0] == 'cptr' for s in walk(e[1]))]
             offv = None
             for ce, truth in offc:
-                if truth:
+                if truth == (ce[1] == 'Eq'):        # offset == k established, however the test is spelled
                     offv = ce[3][1]
             if offv is None:
                 offv = 'rest'
